@@ -73,6 +73,7 @@ func c18pSetup() *c18pEnv {
 	if err := files.RegisterFile(fd); err != nil {
 		panic(err)
 	}
+	pe.rec.in = fd.Services().Get(0).Methods().Get(0).Input()
 	// backend: grpc-go server with scripted handlers
 	impl := &dynImpl{
 		Unary: func(ctx context.Context, method string, req proto.Message, outd protoreflect.MessageDescriptor) (proto.Message, error) {
@@ -136,7 +137,7 @@ func c18pSetup() *c18pEnv {
 
 func c18pExec(pe *c18pEnv, c c18Case, icpt, statsOn bool) c18Obs {
 	e := pe.rec
-	e.imk, e.imc = c.imk, c.imc
+	e.imk, e.imc, e.imsg = c.imk, c.imc, c.imsg
 	e.calls, e.ev, e.hlog, e.dlv, e.iret = nil, nil, nil, nil, "-"
 	r, cancel := c.request()
 	defer cancel()
@@ -181,9 +182,7 @@ func c18pRun(o *out, input string) {
 	pe := c18pSetup()
 	pe.replies, pe.code = unhxs(f[4]), atoi(f[5])
 	c := c18Case{ns: "c18p", proto: f[1], shape: f[2], routed: true, rbody: true, reqs: [][]byte{unhx(f[3])}, imk: f[6][0], icpt: f[7] == "1", statsOn: f[8] == "1"}
-	if c.imk != 'p' {
-		c.imc = atoi(f[6][1:])
-	}
+	c.imk, c.imc, c.imsg = c18ParseMode(f[6])
 	// request(): the proxied service lives under its own names
 	a := c18pExec(pe, c, c.icpt, c.statsOn)
 	b := c18pExec(pe, c, false, false)
@@ -210,6 +209,9 @@ func c18pGen(o *out, r *rng, tier string) {
 							im := "p"
 							if opt&2 != 0 && r.intn(8) == 0 {
 								im = fmt.Sprintf("%c%d", "jo"[r.intn(2)], r.pick([]int{3, 7, 16}))
+							} else if opt&2 != 0 && r.intn(4) == 0 {
+								// the interceptor answers with a message of its own (after / instead of the backend's)
+								im = string("rk"[r.intn(2)]) + hx(c18Payload(r.pick([]int{0, 3, 7, 40}), r))
 							}
 							o.count("proxied/" + p + "/" + sh)
 							c18pRun(o, fmt.Sprintf("C18P %s %s %s %s %d %s %d %d", p, sh, hx(c18Payload(sz, r)), hxs(replies), code, im, b2i(opt&2 != 0), b2i(opt&1 != 0)))
